@@ -6,7 +6,13 @@ T1  print_value (coq/Files/NumFmtModel.v) vs the static print_value of vnadata_s
 T2  saver_fields / loader_fields (coq/Files/NpdScan.v) vs the number of fields on the data lines
     vnadata_fsave writes and vnadata_fload accepts.
 T3  cksave (coq/Files/SaveModel.v) vs the return value of vnadata_cksave on the C06 configurations.
+T4  save_emit (coq/Files/SaveEmit.v, instantiated by SaveEmitTie.v) vs the tokens of the bytes vnadata_fsave
+    wrote: same keywords, words, line structure and the same number at every place, each number compared
+    as the text the C library prints for it (harness/datafiles_num.c); converted matrices are taken from
+    vnadata_convert through the harness (the tie checks which conversion is printed, not its arithmetic).
 """
+import math
+from fractions import Fraction
 import re
 
 import vplib
@@ -93,10 +99,447 @@ def tie_print_value(ctx, broken):
     ctx.extra["print_value_cases"] = len(cases)
 
 
+# ------------------------------------------------------------------------------------------------
+# T4: the saver model's token stream against the bytes written
+# ------------------------------------------------------------------------------------------------
+KW_NAMES = ["BEGIN INFORMATION", "END INFORMATION", "MATRIX FORMAT", "MIXED-MODE ORDER", "NETWORK DATA", "NOISE DATA",
+            "NUMBER OF FREQUENCIES", "NUMBER OF NOISE FREQUENCIES", "NUMBER OF PORTS", "REFERENCE", "TWO-PORT ORDER",
+            "VERSION", "END"]
+
+
+def xnum_term(x):
+    fr = Fraction(x)
+    return "XQ (Q2Qc (Qmake (%d) %d))" % (fr.numerator, fr.denominator)
+
+
+def sv_pair(a, b):
+    return "(%s, %s)" % (a, b)
+
+
+def mobj_term(c):
+    o = c["obj"]
+    ports = o.cols
+    freqs = coq_list(["VF %d" % i for i in range(len(o.freqs))])
+    if o.fz0 is None:
+        z0 = coq_list([sv_pair("VZ %d false" % p, "VZ %d true" % p) for p in range(ports)])
+        fz0 = "None"
+        zre = coq_list([xnum_term(z.real) for z in o.z0])
+        zim = coq_list([xnum_term(z.imag) for z in o.z0])
+    else:
+        z0 = "[]"
+        fz0 = "(Some %s)" % coq_list([coq_list([sv_pair("VFZ %d %d false" % (f, p), "VFZ %d %d true" % (f, p)) for p in range(ports)])
+                                      for f in range(len(o.freqs))])
+        zre = zim = "[]"
+    data = coq_list([coq_list([sv_pair("VC [] %d %d false" % (f, k), "VC [] %d %d true" % (f, k)) for k in range(o.rows * o.cols)])
+                     for f in range(len(o.freqs))])
+    return ("(mkmobj %s %d %d %s %s %s %s (%d) (%d))" % (PT[o.type], o.rows, o.cols, freqs, z0, fz0, data, c["fprec"], c["dprec"]),
+            zre, zim)
+
+
+class _Dec(object):
+    """Decoder of the numeric encoding of coq/Files/SaveEmitTie.v."""
+
+    def __init__(self, xs):
+        self.xs = xs
+        self.i = 0
+
+    def n(self):
+        v = self.xs[self.i] - 1000
+        self.i += 1
+        return v
+
+    def sv(self):
+        tag = self.xs[self.i]
+        self.i += 1
+        if tag == 1010:
+            return ("F", self.n())
+        if tag == 1011:
+            return ("Z", self.n(), self.n())
+        if tag == 1012:
+            return ("FZ", self.n(), self.n(), self.n())
+        if tag == 1013:
+            k = self.n()
+            path = tuple((self.n(), self.n(), self.n()) for _ in range(k))
+            return ("C", path, self.n(), self.n(), self.n())
+        if tag == 1014:
+            return ("ONE",)
+        if tag == 1015:
+            return ("ZERO",)
+        if tag == 1016:
+            return ("BAD",)
+        if tag == 1017:
+            op = self.n()
+            return ("OP", op, self.sv(), self.sv(), self.sv())
+        raise ValueError("bad tag %d" % tag)
+
+
+def decode_text(xs):
+    """One word / field of the model -> ('lit', str) or ('num', kind, prec, flag, sv, suffix)."""
+    if all(x < 256 for x in xs):
+        return ("lit", "".join(chr(x) for x in xs))
+    d = _Dec(xs)
+    tag = xs[0]
+    d.i = 1
+    if tag == 1003:
+        return ("lit", str(d.n()))
+    prec, flag = d.n(), d.n()
+    v = d.sv()
+    suffix = "".join(chr(x) for x in xs[d.i:])
+    return ("num", "P" if tag == 1001 else "A", prec, flag, v, suffix)
+
+
+def sv_paths(v, acc):
+    if v[0] == "C" and v[1]:
+        acc.add(v[1])
+    elif v[0] == "OP":
+        for w in v[2:]:
+            sv_paths(w, acc)
+
+
+def sv_eval(v, o, conv):
+    k = v[0]
+    if k == "F":
+        return o.freqs[v[1]]
+    if k == "Z":
+        z = o.z0[v[1]]
+        return z.imag if v[2] else z.real
+    if k == "FZ":
+        z = o.fz0[v[1]][v[2]]
+        return z.imag if v[3] else z.real
+    if k == "C":
+        m = o.data if not v[1] else conv[v[1]]
+        z = m[v[2]][v[3]]
+        return z.imag if v[4] else z.real
+    if k == "ONE":
+        return 1.0
+    if k == "ZERO":
+        return 0.0
+    if k == "OP":
+        op = v[1]
+        a, b = sv_eval(v[2], o, conv), sv_eval(v[3], o, conv)
+        if op <= 4:
+            r = abs(complex(a, b))
+            if op == 0:
+                return r
+            if op == 1:
+                return 180.0 / math.pi * math.atan2(b, a)
+            if op == 2:
+                return 20.0 * math.log10(r)
+            if op == 3:
+                return -20.0 * math.log10(r)
+            return (1.0 + r) / abs(1.0 - r)
+        if op == 5:
+            return (a * a + b * b) / a
+        f = sv_eval(v[4], o, conv)
+        if op == 6:
+            return -1.0 / (2.0 * math.pi * f * ((a * a + b * b) / b))
+        if op == 7:
+            return ((a * a + b * b) / b) / (2.0 * math.pi * f)
+        if op == 8:
+            return -1.0 / (2.0 * math.pi * f * b)
+        if op == 9:
+            return b / (2.0 * math.pi * f)
+    raise ValueError("cannot evaluate %r" % (v,))
+
+
+def c_tokens(text):
+    """Tokens of a file vnadata_fsave wrote, in the vocabulary of the model's flattened stream."""
+    if text.startswith("#NPD"):
+        lines = []
+        for ln in text.split("\n"):
+            if not ln.strip() or (ln.startswith("#") and not ln.startswith("#:")):
+                continue
+            lines.append(ln.split())
+        return ("npd", lines)
+    toks = []
+    for ln in text.split("\n")[:-1]:
+        body = ln.split("!")[0]
+        opt = False
+        pos = 0
+        for m in re.finditer(r"\[([^\]]*)\]|#|(\S+)", body):
+            if m.group(0) == "#":
+                toks.append(("option",))
+                opt = True
+            elif m.group(1) is not None:
+                toks.append(("kw", m.group(1).upper()))
+            else:
+                toks.append(("word", m.group(2).upper(), opt))
+        toks.append(("nl", opt))
+    toks.append(("eof",))
+    return ("ts", toks)
+
+
+def model_tokens(xs):
+    """Flattened model stream -> same vocabulary, numbers still symbolic."""
+    kind = "ts" if xs[0] == 2020 else "npd"
+    i = 1
+    if kind == "ts":
+        toks = []
+        opt = False
+        while i < len(xs):
+            x = xs[i]
+            i += 1
+            if 2100 <= x < 2100 + len(KW_NAMES):
+                toks.append(("kw", KW_NAMES[x - 2100]))
+            elif x == 2001:
+                j = xs.index(2002, i)
+                toks.append(("word", decode_text(xs[i:j]), opt))
+                i = j + 1
+            elif x in (2003, 2004):
+                toks.append(("nl", x == 2004))
+                opt = False
+            elif x == 2005:
+                toks.append(("option",))
+                opt = True
+            elif x == 2006:
+                toks.append(("eof",))
+            else:
+                raise ValueError("bad stream item %d" % x)
+        return kind, toks
+    lines = []
+    while i < len(xs):
+        x = xs[i]
+        i += 1
+        if x == 2010:
+            lines.append([])
+        elif x == 2001:
+            j = xs.index(2002, i)
+            lines[-1].append(decode_text(xs[i:j]))
+            i = j + 1
+        else:
+            raise ValueError("bad stream item %d" % x)
+    return kind, lines
+
+
+def tie_save_emit(ctx, H, broken, cases, results, expected_filetype):
+    limit = 150 if ctx.tier == "quick" else 900
+    groups = {}
+    for c in cases:
+        lines = results.get(c["id"]) or []
+        sv = [l for l in lines if l.startswith("SAVE")]
+        sets = [l for l in lines if l.startswith("SET")]
+        if not sv or any(x.split()[1] != "0" for x in sets):
+            continue
+        f = sv[0].split(" # ")[0].split()
+        if f[1] != "0" or f[6] == "-":
+            continue
+        ents = [entry_term(e) for e in (c["format"].split(",") if c["format"] else [])]
+        if any(e is None for e in ents):
+            continue
+        o = c["obj"]
+        text = bytes.fromhex(f[6]).decode("latin-1")
+        eft = expected_filetype(c)
+        base = c["name"].rsplit("/", 1)[-1]
+        ext = base.rsplit(".", 1)[1].lower() if "." in base else ""
+        promote = ext == "ts" and c["setft"] == D.FT_TS1
+        ft = "TS1" if promote else eft
+        one = o.fz0 is None and o.z0[0] == 1
+        key = (ft, promote, min(o.cols, 5), o.type in ("S",), c["zmode"], len(ents), one)
+        groups.setdefault(key, []).append((c, text, ents, ft, promote))
+    sel = []
+    depth = 0
+    while len(sel) < limit and any(len(g) > depth for g in groups.values()):
+        for k in sorted(groups):
+            if len(groups[k]) > depth and len(sel) < limit:
+                sel.append(groups[k][depth])
+        depth += 1
+    if not sel:
+        ctx.obligation("tie:save_emit_model", False, "no accepted configuration to compare")
+        return
+    body = ["Require Import List NArith ZArith QArith Qcanon Bool.", "Import ListNotations.",
+            "Require Import LV.Files.TsTok LV.Files.TsParse LV.Files.NpdScan LV.Files.SaveModel LV.Files.SaveEmit LV.Files.SaveEmitTie."]
+    for c, text, ents, ft, promote in sel:
+        term, zre, zim = mobj_term(c)
+        body.append("Eval vm_compute in flat_saved (save_emit (tie_env %s %s) %s %s %s %s)."
+                    % (zre, zim, term, ft, "true" if promote else "false", coq_list(ents)))
+    rc, cout, cerr = ctx.coq_eval("save_emit_cases", "\n".join(body) + "\n", timeout=900)
+    if rc != 0:
+        ctx.obligation("tie:save_emit_model", False, "model evaluation failed: " + cerr[-300:])
+        broken.append("saver model cannot be evaluated: " + cerr[-300:])
+        return
+    blocks = re.findall(r"=\s*\[(.*?)\]\s*:\s*list N", cout, flags=re.S)
+    if len(blocks) != len(sel):
+        ctx.obligation("tie:save_emit_model", False, "%d model outputs for %d cases" % (len(blocks), len(sel)))
+        broken.append("saver model output could not be read back")
+        return
+    models = []
+    for blk in blocks:
+        xs = [int(x) for x in re.findall(r"\d+", blk)]
+        models.append(model_tokens(xs))
+    # conversions the model printed from: ask the library for them
+    def texts_of(m):
+        kind, t = m
+        if kind == "ts":
+            return [x[1] for x in t if x[0] == "word"]
+        return [f for ln in t for f in ln]
+    scripts = []
+    need = []
+    for (c, text, ents, ft, promote), m in zip(sel, models):
+        paths = set()
+        for t in texts_of(m):
+            if t[0] == "num":
+                sv_paths(t[4], paths)
+        need.append(sorted(paths))
+        if paths:
+            cmds = c["obj"].cmds(0)
+            for path in sorted(paths):
+                src = 0
+                nxt = 1
+                for (a, b, ones) in path:
+                    if ones:
+                        if src == 0:
+                            cmds.append("convert 0 %d %d" % (nxt, a))
+                            src = nxt
+                            nxt += 1
+                        cmds.append("z0all %d 0x1p+0" % src)
+                    cmds.append("convert %d %d %d" % (src, nxt, b))
+                    src = nxt
+                    nxt += 1
+                cmds += ["dump %d" % src, "free 1", "free 2", "free 3"]
+            scripts.append(("e" + c["id"], cmds))
+    cres, cfaults = H.run(scripts, timeout=900) if scripts else ({}, [])
+    convs = []
+    for (c, text, ents, ft, promote), paths in zip(sel, need):
+        cv = {}
+        if paths:
+            lines = cres.get("e" + c["id"]) or []
+            dumps = [D.parse_dump(l) for l in lines if l.startswith("DUMP")]
+            if len(dumps) == len(paths) and all(d is not None for d in dumps) and all(l.split()[1] == "0" for l in lines if l.startswith("SET")):
+                for pth, d in zip(paths, dumps):
+                    cv[pth] = d.data
+            else:
+                cv = None
+        convs.append(cv)
+    # the numbers, as the C library prints them
+    reqs = {}
+    plan = []
+    for (c, text, ents, ft, promote), m, cv in zip(sel, models, convs):
+        vals = []
+        ok = cv is not None
+        if ok:
+            for t in texts_of(m):
+                if t[0] != "num":
+                    continue
+                try:
+                    v = sv_eval(t[4], c["obj"], cv)
+                except (ValueError, ZeroDivisionError, OverflowError, IndexError, KeyError):
+                    ok = False
+                    break
+                vals.append(v)
+                if t[1] == "P":
+                    reqs[(t[2], t[3], v.hex())] = None
+                elif t[2] == D.MAXP:
+                    reqs[(t[2], 2, v.hex())] = None
+        plan.append(vals if ok else None)
+    exe = ctx.build_harness("datafiles_num", san=True, exclude=("vnadata_save.c",))
+    keys = sorted(reqs)
+    rc, out, err = vplib.sh([exe], input="".join("%d %d 0 %s\n" % k for k in keys), timeout=300, env=ctx.run_env())
+    olines = out.strip().split("\n") if out.strip() else []
+    if rc != 0 or len(olines) != len(keys):
+        ctx.obligation("tie:save_emit_model", False, "number formatting harness failed: " + err[-200:])
+        broken.append("datafiles_num failed while formatting the numbers of the saver-model tie")
+        return
+    for k, ol in zip(keys, olines):
+        reqs[k] = bytes(int(x, 16) for x in ol.split("|", 1)[1].split()).decode("latin-1")
+
+    def expect(t, v, upper):
+        if t[0] == "lit":
+            return t[1].upper() if upper else t[1], False
+        _, kind, prec, flag, svv, suffix = t
+        if kind == "P":
+            sx = reqs[(prec, flag, v.hex())]
+        elif prec == D.MAXP:
+            sx = reqs[(prec, 2, v.hex())]
+        else:
+            sx = "%+.*f" % (prec - 3 if flag else prec - 1, v)
+        sx += suffix
+        return (sx.upper() if upper else sx), svv[0] == "OP" or (svv[0] == "C" and bool(svv[1]))
+
+    def close(a, b):
+        try:
+            x, y = D.parse_number(a.rstrip("jJ")), D.parse_number(b.rstrip("jJ"))
+        except Exception:
+            return False
+        if x is None or y is None:
+            return False
+        x, y = float(x), float(y)
+        return x == y or abs(x - y) <= 1e-11 * max(abs(x), abs(y)) + 1e-300
+
+    bad = compared = skipped = inexact = 0
+    for (c, text, ents, ft, promote), m, vals in zip(sel, models, plan):
+        if vals is None:
+            skipped += 1
+            continue
+        ckind, ctoks = c_tokens(text)
+        mkind, mtoks = m
+        it = iter(vals)
+        diff = None
+        if ckind != mkind:
+            diff = "file kind: C wrote %s, model %s" % (ckind, mkind)
+        elif ckind == "ts":
+            exp = []
+            for t in mtoks:
+                if t[0] == "word":
+                    e, derived = expect(t[1], next(it) if t[1][0] == "num" else None, True)
+                    exp.append(("word", e, t[2], derived))
+                else:
+                    exp.append(t + (False,) if t[0] != "word" else t)
+            if len(exp) != len(ctoks):
+                diff = "token count: C %d, model %d" % (len(ctoks), len(exp))
+            else:
+                for n, (a, b) in enumerate(zip(ctoks, exp)):
+                    if a[0] == "word" and b[0] == "word":
+                        if a[1] == b[1] and a[2] == b[2]:
+                            continue
+                        if b[3] and a[2] == b[2] and close(a[1], b[1]):
+                            inexact += 1
+                            continue
+                        diff = "token %d: C %r, model %r" % (n, a, b[:3])
+                        break
+                    if tuple(a) != tuple(b[:len(a)]):
+                        diff = "token %d: C %r, model %r" % (n, a, b[:len(a)])
+                        break
+        else:
+            if len(ctoks) != len(mtoks):
+                diff = "line count: C %d, model %d" % (len(ctoks), len(mtoks))
+            else:
+                for ln, (cl, ml) in enumerate(zip(ctoks, mtoks)):
+                    el = [expect(t, next(it) if t[0] == "num" else None, False) for t in ml]
+                    if len(cl) != len(el):
+                        diff = "line %d: C has %d fields, model %d" % (ln, len(cl), len(el))
+                        break
+                    for fi, (a, (b, derived)) in enumerate(zip(cl, el)):
+                        if a == b:
+                            continue
+                        if derived and close(a, b):
+                            inexact += 1
+                            continue
+                        diff = "line %d field %d: C %r, model %r" % (ln, fi, a, b)
+                        break
+                    if diff:
+                        break
+        compared += 1
+        ctx.count(("save_emit", c["id"]))
+        ctx.traces_validated += 1
+        if diff:
+            bad += 1
+            if bad <= 3:
+                o = c["obj"]
+                ctx.violation({"kind": "disagreement", "op": "vnadata_fsave", "class": "emit_model_vs_c"},
+                              "vnadata_fsave and the saver model write different files (%s %dx%d, %s, format %s, file %s): %s"
+                              % (o.type, o.rows, o.cols, ft, c["format"], c["name"], diff),
+                              {"case": {k: repr(v) for k, v in c.items() if k != "obj"}, "file": text[:3000], "difference": diff})
+    ctx.obligation("tie:save_emit_model", bad == 0 and compared >= max(1, len(sel) // 2),
+                   "%d of %d differ (%d not evaluated, %d derived numbers equal to 1e-11 only)" % (bad, compared, skipped, inexact))
+    ctx.extra["save_emit_cases"] = compared
+    ctx.extra["save_emit_groups"] = len(groups)
+
+
 def run(ctx, H, broken, cases=None, results=None, expected_filetype=None):
     tie_print_value(ctx, broken)
     if not cases:
         return
+    tie_save_emit(ctx, H, broken, cases, results, expected_filetype)
     # ---- T2 / T3 on the configurations of the round-trip run
     body = ["Require Import List Bool Arith.", "Require Import LV.Files.NpdScan LV.Files.SaveModel.", "Import ListNotations."]
     rows = []
